@@ -54,6 +54,9 @@ func c14Finder(run *Run, j *histJob) {
 			}
 		}
 	}
+	if newAfterTerminate(r) {
+		run.Fail("C14:terminated-forwarded", "TerminateStream returned true, yet the request was sent upstream afterwards", replay)
+	}
 	denied, term := false, false
 	deniedAt := -1
 	lastPhase, lastIdx, lastVerdict := -1, -1, ""
